@@ -132,8 +132,10 @@ func runC12Cell(t *testing.T, l lat, rep *Report, boundaryOnly bool) (fails []c1
 			if l.Enc != "off" && pl.EncVsn != l.encVsn() {
 				fail(fam, "encryption version %d, expected %d", pl.EncVsn, l.encVsn())
 			}
-			if pl.HadCRC != (p.peerPMax() >= 5) {
-				fail(fam, "checksum header present=%v but peer max protocol is %d", pl.HadCRC, p.peerPMax())
+			// the sender adds a checksum when it knows the recipient speaks protocol >= 5: it knows the
+			// recipient when the caller passed the node or when the node name is its bare address
+			if wantCRC := p.peerPMax() >= 5 && (explicitNode || l.IPNames); pl.HadCRC != wantCRC {
+				fail(fam, "checksum header present=%v, expected %v (peer max protocol %d)", pl.HadCRC, wantCRC, p.peerPMax())
 			}
 			if pl.Compress && !l.Comp {
 				fail(fam, "compressed although compression is off")
